@@ -374,6 +374,19 @@ impl VisitMut for Rewriter {
             self.visit_stmt_mut(s);
         }
         b.stmts.retain(|s| !is_dropped(s));
+        // a loop statement gets an explicit `;` (Verus rejects a loop body that is directly followed by a block)
+        for s in b.stmts.iter_mut() {
+            if let Stmt::Expr(e, semi @ None) = s {
+                let is_loop = match e {
+                    Expr::ForLoop(_) | Expr::While(_) | Expr::Loop(_) => true,
+                    Expr::Block(bb) => bb.block.stmts.len() == 2 && matches!(bb.block.stmts.last(), Some(Stmt::Expr(Expr::ForLoop(_), _))),
+                    _ => false,
+                };
+                if is_loop {
+                    *semi = Some(Default::default());
+                }
+            }
+        }
         self.ctx.scopes.pop();
     }
     fn visit_stmt_mut(&mut self, s: &mut Stmt) {
